@@ -19,7 +19,9 @@ CLAIMS = {
         text=_T + "Decides the per-target outcome table of do/noise/shift (precedence, add vs replace, incoming edges "
              "cut column-wise), the record layout between _parse_interventions and LGANM.sample, lossless (float) dtype "
              "of the working arrays, scalar => variance 0, range sampling slots, and equality of the population formulas "
-             "with (I-W^T)^-1 mu and A diag(v) A^T over the reals.",
+             "with (I-W^T)^-1 mu and A diag(v) A^T over the reals (differing normal forms are refuted by exact rational evaluation), that "
+             "the whole weight matrix enters the computation, that no decision depends on weight values and nothing but own "
+             "allocations is written.",
         note="Not decided: floating-point error of the inverse; numpy's uniform respecting its bounds (trusted API model). "
              "Trusted: Python semantics of the subset used, sverif/api.py.",
         technique="static analysis: predicate-abstraction case tables + symbolic value numbering with matrix normal form + dtype/slot dataflow over the AST"),
@@ -34,8 +36,11 @@ CLAIMS = {
              "(no sum/product/ordered comparison of raw weights reaches a branch, index or result), that is_dag is exactly "
              "'topological_ordering returned', that the self-loop/two-cycle pre-check counts a pair iff both entries are "
              "non-zero on all 9 sign pairs and the diagonal, and that each constructor/API gate raises ValueError from that "
-             "verdict on the matrix it then stores, before storing it.",
-        note="Not decided: the inductive correctness of Kahn's loop (each node once, edges forward).",
+             "verdict on the matrix it then stores, before storing it. Also decides the shape of Kahn's loop (sources = zero "
+             "in-degree of the pattern, pop -> emit once, remove the emitted node's out-edges, child ready iff no parent left in the "
+             "updated matrix, leftover test guards the return) and that every kind of cycle is rejected by the pre-check or by the "
+             "leftover test.",
+        note="Not decided: the inductive argument that Kahn's loop with this shape emits every node exactly once in a forward order.",
         technique="static analysis: zero-pattern taint (abstract interpretation, interprocedural), sign-domain pointwise tables, guard dominance over symbolic path conditions"),
     "C04": dict(
         text=_T + "Decides that the finite-sample path draws from the very distribution object returned in population "
@@ -58,8 +63,10 @@ CLAIMS = {
     "C07": dict(
         text=_T + "Narrow: decides zero-pattern dependence of mec / is_consistent_extension, the DAG gates, that the "
              "membership predicate depends on all three defining conditions, that every element all_dags returns passed "
-             "both filters and derives from a copy of the input with only undirected-edge entries cleared, and the chain "
-             "shortcut's interval partition.",
+             "both filters and derives from a copy of the input with only undirected-edge entries cleared, that the loop "
+             "runs over {True,False}^u with complementary masks and swapped columns for the two orientations, the dispatch "
+             "between shortcut and general path (the chain test must be the exact value test), and the chain shortcut's "
+             "interval partition.",
         note="Not decided: completeness/uniqueness of the 2^u enumeration; equality of the chain shortcut and the general path.",
         technique="static analysis: zero-pattern taint, must-depend (REL) and dominance rules over symbolic terms"),
     "C08": dict(
@@ -71,8 +78,10 @@ CLAIMS = {
     "C10": dict(
         text=_T + "Narrow: decides zero-pattern dependence of imec/dag_to_icpdag, the I ⊆ [p] and undirected-edge-at-target "
              "guards, orientation agreement of the edges cleared at targets and in maximally_orient, that the chain filter "
-             "compares parent columns, that results depend on I, and that I = {} degenerates to the CPDAG path.",
-        note="Not decided: exactness of the class and of the essential graph.",
+             "compares parent columns, that results depend on I, that I = {} degenerates to the CPDAG path, and that rule_1 / "
+             "rule_2 equal their set-theoretic definitions in every world of the two sets involved (exhaustive Venn-region tables).",
+        note="Not decided: exactness of the class and of the essential graph; Meek rules 3 and 4 (quantified over elements) and the "
+             "soundness/completeness of the rule set itself (C09).",
         technique="static analysis: zero-pattern taint, guard dominance, index-orientation agreement over symbolic terms"),
     "C11": dict(
         text=_T + "Decides strict upper triangle, the same random permutation on both axes, ordering = argsort(permutation), "
